@@ -17,7 +17,16 @@ thread_local! {
 
 pub fn set_real(v: Option<(SocketAddr, u64)>) { REAL.with(|c| c.set(v)); }
 
-pub fn addr(port: u16) -> SocketAddr { REAL.with(|c| c.get()).map_or(SocketAddr::new(IP, port), |r| r.0) }
+pub const IP6: IpAddr = IpAddr::V6(std::net::Ipv6Addr::new(0x2001, 0xdb8, 0, 0, 0, 0, 0, 3));
+
+thread_local! {
+    /// the address the case's query goes to (`ip=6` on the case line: an IPv6 one)
+    static CASE_IP: std::cell::Cell<IpAddr> = const { std::cell::Cell::new(IP) };
+}
+
+pub fn ip() -> IpAddr { CASE_IP.with(|c| c.get()) }
+
+pub fn addr(port: u16) -> SocketAddr { REAL.with(|c| c.get()).map_or(SocketAddr::new(ip(), port), |r| r.0) }
 
 fn parse_conn(s: &str) -> Option<ConnScript> {
     if s == "X" {
@@ -47,8 +56,12 @@ pub fn parse_net_args(toks: &[&str]) -> Option<Script> {
             script.conns.push(parse_conn(c)?);
         }
     }
+    CASE_IP.with(|c| c.set(IP));
     for t in &toks[1 ..] {
-        if let Some(f) = t.strip_prefix("f=") {
+        if *t == "ip=6" {
+            CASE_IP.with(|c| c.set(IP6));
+        } else if *t == "ip=4" {
+        } else if let Some(f) = t.strip_prefix("f=") {
             script.send_faults = f.chars().map(|c| c == '1').collect();
         } else if t.starts_with("bz=") {
         } else if let Some(d) = t.strip_prefix("td=") {
@@ -92,7 +105,7 @@ pub fn show_event(e: &Event) -> String {
                 if *tcp { "t" } else { "u" },
                 addr.port(),
                 if *refused { "!" } else { "" },
-                if addr.ip() != IP { "@WRONGIP" } else { "" }
+                if addr.ip() != ip() { "@WRONGIP" } else { "" }
             )
         }
         Event::Send {
@@ -107,7 +120,7 @@ pub fn show_event(e: &Event) -> String {
                 addr.port(),
                 hex(data),
                 if *failed { "!" } else { "" },
-                if addr.ip() != IP { "@WRONGIP" } else { "" }
+                if addr.ip() != ip() { "@WRONGIP" } else { "" }
             )
         }
         Event::Recv { conn, size, got } => {
